@@ -106,3 +106,35 @@ fn c08_ltwh_iou_present() {
     kani::cover!(v.is_some(), "reach/c08_ltwh_iou_present");
     assert!(v.is_some() == (ha && hb), "C08/ltwh.iou.present_iff_both_sides: axis-aligned IoU is reported exactly when both boxes are given");
 }
+
+static mut CLIP_SAW_MARKER: bool = false;
+const MARKER: f64 = 1.0e12;
+fn stub_clip_marker(s: &Polygon<f64>, c: &Polygon<f64>) -> Polygon<f64> {
+    let seen = |p: &Polygon<f64>| p.exterior().0.iter().any(|k| k.x == MARKER);
+    unsafe { CLIP_SAW_MARKER = seen(s) || seen(c); }
+    Polygon::new(LineString(vec![Coord { x: 0.0, y: 0.0 }, Coord { x: 2.0, y: 0.0 }, Coord { x: 2.0, y: 3.0 }, Coord { x: 0.0, y: 3.0 }]), vec![])
+}
+
+//@H props=C08 kind=proof tier=quick stubs=yes fn=Universal2DBox::intersection,<Universal2DBox-as-Clone>::clone
+//@H clause: the intersection is computed from the boxes' CURRENT coordinates: a polygon cached before a box was moved / resized / rotated through its public fields is never handed to the clipper (stale cache marked by a sentinel coordinate; pre-filter and clipper by recording stubs)
+#[kani::proof]
+#[kani::stub(Universal2DBox::too_far, stub_too_far)]
+#[kani::stub(crate::utils::clipping::sutherland_hodgman_clip, stub_clip_marker)]
+#[kani::unwind(8)]
+fn c08_intersection_ignores_stale_cache() {
+    let stale = || Some(Polygon::new(LineString(vec![Coord { x: MARKER, y: 0.0 }, Coord { x: MARKER, y: 1.0 }, Coord { x: MARKER + 1.0, y: 1.0 }]), vec![]));
+    let mut l = any_valid_ubox();
+    let mut r = any_valid_ubox();
+    kani::assume(l.xc.abs() <= 1.0e6 && l.yc.abs() <= 1.0e6 && l.height <= 1.0e4 && l.aspect <= 1.0e2);
+    kani::assume(r.xc.abs() <= 1.0e6 && r.yc.abs() <= 1.0e6 && r.height <= 1.0e4 && r.aspect <= 1.0e2);
+    let which: u8 = kani::any();
+    kani::assume(which < 3);
+    if which != 1 { l._vertex_cache = stale(); }
+    if which != 0 { r._vertex_cache = stale(); }
+    unsafe { FAR = false; }
+    let _v = Universal2DBox::intersection(&l, &r);
+    kani::cover!(which == 2, "reach/c08_intersection_ignores_stale_cache both stale");
+    assert!(!unsafe { CLIP_SAW_MARKER }, "C08/universal.intersection.never_uses_a_stale_cached_polygon: the clipper is given polygons generated from the current coordinates, not a previously cached one");
+    core::mem::forget(l);
+    core::mem::forget(r);
+}
